@@ -662,6 +662,7 @@ pub fn report(pid: &str, violations: &[Violation]) -> i32 {
 
 thread_local! {
     static LAST_PANIC: std::cell::RefCell<Option<String>> = const { std::cell::RefCell::new(None) };
+    static IN_CATCH: std::cell::Cell<u32> = const { std::cell::Cell::new(0) };
 }
 
 pub fn install_quiet_panic_hook() {
@@ -678,7 +679,9 @@ pub fn install_quiet_panic_hook() {
             "<non-string panic>".to_owned()
         };
         LAST_PANIC.with(|p| *p.borrow_mut() = Some(format!("{loc}: {msg}")));
-        if std::env::var_os("QV_SHOW_PANICS").is_some() {
+        // panics of the code under test are expected and recorded; a panic of the harness itself
+        // (outside any `catch`) must be visible
+        if IN_CATCH.with(|c| c.get()) == 0 || std::env::var_os("QV_SHOW_PANICS").is_some() {
             eprintln!("panic at {loc}: {msg}");
         }
     }));
@@ -691,7 +694,10 @@ pub fn take_last_panic() -> Option<String> {
 /// Runs `f`, converting a panic into Err(location: message).
 pub fn catch<T>(f: impl FnOnce() -> T) -> Result<T, String> {
     let _ = take_last_panic();
-    match std::panic::catch_unwind(std::panic::AssertUnwindSafe(f)) {
+    IN_CATCH.with(|c| c.set(c.get() + 1));
+    let r = std::panic::catch_unwind(std::panic::AssertUnwindSafe(f));
+    IN_CATCH.with(|c| c.set(c.get() - 1));
+    match r {
         Ok(v) => Ok(v),
         Err(_) => Err(take_last_panic().unwrap_or_else(|| "panic (no message)".into())),
     }
